@@ -3,18 +3,20 @@
 // c13_sync*) and against the real <mpi.h> (c13_real, OpenMPI cross-run).
 #pragma once
 #include "c13_core.hpp"
+#include <kernel/global/mean_filter.hpp>
+#include <unistd.h>
 
 namespace c13
 {
-  enum Op { op_gate = 0, op_sync0, op_sync1, op_sync1_mean, op_from10_dot, op_apply, op_apply_axpy, op_diag, op_lump, op_to1, op_rect_apply, op_rect_to1, op_multi, op_repeat, op_derived, op_alpha, op_extreme, op_empty, op_splitter, op_pcg, op_count };
+  enum Op { op_gate = 0, op_sync0, op_sync1, op_sync1_mean, op_from10_dot, op_apply, op_apply_axpy, op_diag, op_lump, op_to1, op_rect_apply, op_rect_to1, op_multi, op_repeat, op_derived, op_alpha, op_extreme, op_empty, op_splitter, op_misc, op_meanfilter, op_pcg, op_count };
   inline const char* op_name(int o)
   {
-    static const char* n[] = {"gate", "sync_0", "sync_1", "sync_1(mean)", "from_1_to_0+dot+norm2", "matrix.apply", "matrix.apply(y,alpha)", "extract_diag", "lump_rows", "convert_to_1", "rect-block(2x3) matrix.apply", "rect-block(2x3) convert_to_1", "tickets-in-flight", "reuse-of-objects", "derived-gates", "apply-alpha-0-1", "extreme-values", "empty-mirrors-pushed", "splitter+muxer", "pcg-jacobi"};
+    static const char* n[] = {"gate", "sync_0", "sync_1", "sync_1(mean)", "from_1_to_0+dot+norm2", "matrix.apply", "matrix.apply(y,alpha)", "extract_diag", "lump_rows", "convert_to_1", "rect-block(2x3) matrix.apply", "rect-block(2x3) convert_to_1", "tickets-in-flight", "reuse-of-objects", "derived-gates", "apply-alpha-0-1", "extreme-values", "empty-mirrors-pushed", "splitter+muxer", "transposed+accessors+files", "mean-filter", "pcg-jacobi"};
     return n[o];
   }
   static const int pcg_iters = 4;
   /// operations with several synchronisations: explored with a deviation bound instead of the full product
-  inline bool op_is_multi(int o) { return o == op_multi || o == op_repeat || o == op_derived || o == op_alpha || o == op_extreme || o == op_empty || o == op_pcg; }
+  inline bool op_is_multi(int o) { return o == op_multi || o == op_repeat || o == op_derived || o == op_alpha || o == op_extreme || o == op_empty || o == op_misc || o == op_pcg; }
 
   // -----------------------------------------------------------------------------------------------
   // the code under test: what one MPI process does
@@ -328,6 +330,85 @@ namespace c13
           else mux.split_recv(back);
           put(3, back);
         }
+      }
+      break;
+    case op_misc:
+      {
+        GMat A(&gate, &gate, R.A0.clone(LAFEM::CloneMode::Shallow));
+        GVec x(&gate, mk(fu)), y(&gate, mk(fv)), r(&gate, Vec(n));
+        out.scal.push_back(double(A.rows())); out.scal.push_back(double(A.columns())); out.scal.push_back(double(A.used_elements()));
+        out.scal.push_back(double(x.size()));
+        out.scal.push_back(double(A.template rows<LAFEM::Perspective::native>()));
+        out.scal.push_back((A.bytes() > 0u && gate.bytes() > 0u) ? 1.0 : 0.0);
+        r.format(-77.0); A.apply_transposed(r, x); put(0, r.local());
+        r.format(-77.0); A.apply_transposed(r, x, y, 0.5); put(1, r.local());
+        { auto t = x.min_abs_element_async(); out.scal.push_back(t.wait()); }
+        { auto t = x.max_element_async(); out.scal.push_back(t.wait()); }
+        { auto t = x.min_element_async(); out.scal.push_back(t.wait()); }
+        if constexpr(bs == 2)
+        {
+          typedef LAFEM::DenseVectorBlocked<double, Index, 3> Vec3;
+          typedef LAFEM::SparseMatrixBCSR<double, Index, 2, 3> MatR;
+          Global::Gate<Vec3, Mirror> gate3(comm);
+          fill_gate(gate3, false);
+          gate3.compile(Vec3(n));
+          Global::Matrix<MatR, Mirror, Mirror> Ar(&gate, &gate3, R.A0r.clone(LAFEM::CloneMode::Shallow));
+          Global::Vector<Vec3, Mirror> r3(&gate3, Vec3(n)), y3(&gate3, Vec3(n));
+          for(Index j = 0; j < n; ++j) for(int c = 0; c < 3; ++c) raw(y3.local())[size_t(j) * 3u + size_t(c)] = val_v(R.p2b[size_t(j)], c);
+          r3.format(-77.0); Ar.apply_transposed(r3, x);
+          out.vec[2].assign(raw(r3.local()), raw(r3.local()) + size_t(n) * 3u);
+          r3.format(-77.0); Ar.apply_transposed(r3, x, y3, -0.5);
+          out.vec[3].assign(raw(r3.local()), raw(r3.local()) + size_t(n) * 3u);
+          out.scal.push_back(double(Ar.rows())); out.scal.push_back(double(Ar.columns()));
+        }
+        // Splitter: converted to float / unsigned int, moved, and the file round trip join_write_out -> split_read_from
+        if(!(w.cfg.P == 1 && w.cfg.renum != 0))
+        {
+          const Index N = w.B.N;
+          const int P = w.cfg.P;
+          Global::Splitter<Vec, Mirror> sp0;
+          sp0.set_root(&comm, 0, Mirror::make_identity(n));
+          if(rank == 0) { for(int q = 0; q < P; ++q) { const auto& Q = *w.ranks[size_t(q)]; Mirror m(N, Q.ndofs); for(Index j = 0; j < Q.ndofs; ++j) m.indices()[j] = Q.p2b[size_t(j)]; sp0.push_patch(std::move(m)); } sp0.set_base_vector_template(Vec(N)); }
+          sp0.compile(Vec(n));
+          Global::Splitter<Vec, Mirror> sp(std::move(sp0));
+          char fn[256]; snprintf(fn, sizeof fn, "/verif/build/scratch/c13_sync/splitter.%d.bin", int(getpid()));
+          GVec t1(&gate, mk(fv)), back(&gate, Vec(n));
+          back.format(-77.0);
+          sp.join_write_out(t1, fn);
+          comm.barrier();
+          sp.split_read_from(back, fn);
+          put(4, back.local());
+          comm.barrier();
+          if(rank == 0) unlink(fn);
+          typedef typename Vec::template ContainerType<float, unsigned int> VecF;
+          typedef LAFEM::VectorMirror<float, unsigned int> MirrorF;
+          Global::Splitter<VecF, MirrorF> spf;
+          spf.convert(sp);
+          VecF vbf, xf(n);
+          if(rank == 0) { vbf = VecF(N); for(Index i = 0; i < N; ++i) for(int c = 0; c < bs; ++c) raw(vbf)[size_t(i) * size_t(bs) + size_t(c)] = float(val_u(i, c)); }
+          xf.format(-77.0f);
+          spf.split(xf, vbf);
+          out.vec[5].assign(size_t(n) * size_t(bs), 0.0);
+          for(size_t k = 0; k < out.vec[5].size(); ++k) out.vec[5][k] = double(raw(xf)[k]);
+          out.scal.push_back((sp.bytes() > 0u || rank != 0) ? 1.0 : 0.0);
+        }
+      }
+      break;
+    case op_meanfilter:
+      if constexpr(bs == 1)
+      {
+        auto fp = [](Index b, int) { return 1.0 + 0.5 * double(b % 3); };
+        auto fd = [](Index b, int) { return 0.25 * double(1 + (b % 4)); };
+        Global::MeanFilter<double, Index> mf(mk(fp), mk(fd), gate.get_freqs().clone(LAFEM::CloneMode::Deep), &comm);
+        out.scal.push_back(mf.get_volume());
+        Global::Filter<Global::MeanFilter<double, Index>, Mirror> gfm(std::move(mf));
+        GVec x(&gate, mk(fu)), y(&gate, mk(fv)), z(&gate, mk(fu));
+        gfm.filter_rhs(x); put(0, x.local());
+        gfm.filter_sol(y); put(1, y.local());
+        auto gfc = gfm.clone(LAFEM::CloneMode::Deep);
+        gfc.filter_def(z); gfc.filter_def(z);   // a projection: the second application must not change anything (up to rounding)
+        put(2, z.local());
+        out.scal.push_back(gfc.local().get_volume());
       }
       break;
     case op_pcg:
